@@ -75,7 +75,8 @@ def sel_case(draw, tier):
     if sel == "selectisinstance":
         c["value"] = draw(st.sampled_from(sorted(TYPES)))
     if sel == "selectop":
-        c["value"] = draw(st.sampled_from(["eq", "ne"]))  # no identity operators: the petl table is a copy
+        # (no identity operators: the petl table is a copy; lt / ge / contains are not symmetric in their arguments)
+        c["value"] = draw(st.sampled_from(["eq", "ne", "lt", "ge", "contains_swapped"]))
     if sel in ("selectis", "selectisnot"):
         # identity is only meaningful for singletons; cells and value are separate copies in the petl table
         c["value"] = draw(st.sampled_from([None, True, False]))
@@ -145,7 +146,8 @@ def check_sel(case, ctx):
         pred = lambda r: isinstance(cellv(r), ty)  # noqa
         args = (field, ty)
     elif sel == "selectop":
-        opf = getattr(operator, x)
+        opf = (lambda a_, b_: operator.contains(b_, a_) if isinstance(b_, (list, tuple, str)) and not isinstance(a_, (list, dict)) else False) \
+            if x == "contains_swapped" else getattr(operator, x)
         pred = lambda r: opf(cellv(r), y)  # noqa
         args = (field, y, opf)
     elif sel == "selectcontains":
